@@ -23,6 +23,7 @@ from taskiq.receiver import Receiver
 from vt.core.vloop import Deadlock, VirtualTimeLoop
 
 NEVER = 1.0e6
+WALL = {"offset": 0.0}     # offset of the fake wall clock (taskiq.receiver.receiver.time) against the virtual loop clock
 
 
 class Inline(cf.Executor):
@@ -39,6 +40,10 @@ class Inline(cf.Executor):
 
 class MyBase(BaseException):
     pass
+
+
+class Conn:
+    """A plain class: pydantic cannot build a schema for it, so a value for a parameter annotated with it is passed on unchanged."""
 
 
 class MyErr(Exception):
@@ -207,6 +212,11 @@ def build_middlewares(specs: List[Dict[str, Any]], tr: Trace, base: int = 0) -> 
             # "inherited": the hook is defined on an intermediate middleware class, the registered class only inherits it
             (base_ns if hs.get("inherited") else ns)[hook] = f
         parent = type(f"MWBase{mi}", (TaskiqMiddleware,), base_ns) if base_ns else TaskiqMiddleware
+        if hooks.get("_value_eq"):
+            # middlewares with value equality (think @dataclass): equal ones are still separate registrations
+            ns["__eq__"] = lambda self, other: isinstance(other, TaskiqMiddleware) and getattr(other, "_vt_eq", None) == "same"
+            ns["__hash__"] = lambda self: 7
+            ns["_vt_eq"] = "same"
         out.append(type(f"MW{mi}", (parent,), ns)())
     return out
 
@@ -300,6 +310,8 @@ def register_timing_tasks(broker: ScriptedBroker, tr: Trace, sc: Dict[str, Any])
     async def atask(i: int) -> Any:
         sp = specs[i]
         tr.add("enter", i)
+        if sp.get("clock_step"):
+            WALL["offset"] += sp["clock_step"]      # the host's wall clock is stepped (NTP correction, VM resume) meanwhile
         try:
             if sp.get("barrier"):
                 if bar["ev"] is None:
@@ -363,6 +375,12 @@ def register_timing_tasks(broker: ScriptedBroker, tr: Trace, sc: Dict[str, Any])
     async def dyntask(i: int) -> Any:
         return await atask(i)
 
+    async def cltask(i: int, conn: Conn = None) -> Any:  # type: ignore[assignment]
+        return await atask(i)
+
+    cltask.__module__ = __name__
+    broker.register_task(cltask, task_name="cltask")
+
     dyntask.__module__ = __name__
 
     def _register_dyn() -> None:
@@ -376,12 +394,13 @@ def build_script(broker: ScriptedBroker, sc: Dict[str, Any]) -> List[Any]:
     script = []
     for i, sp in enumerate(sc["msgs"]):
         kind = sp["kind"]
-        tname = sp.get("task") or {"sync": "stask", "shared": "shtask", "late": "latask", "dyn": "dyntask"}.get(kind, "atask")
+        tname = sp.get("task") or {"sync": "stask", "shared": "shtask", "late": "latask", "dyn": "dyntask", "plaincls": "cltask"}.get(kind, "atask")
         labels = dict(sp.get("labels") or {})
         if sp.get("timeout") is not None:
             labels["timeout"] = sp["timeout"]
         args = sp.get("args", [i])
-        m = make_message(broker, tname, sp.get("dup_of", i), args, sp.get("kwargs"), labels)
+        kwargs = sp.get("kwargs") or ({"conn": "postgres://x"} if kind == "plaincls" else None)
+        m = make_message(broker, tname, sp.get("dup_of", i), args, kwargs, labels)
         if kind == "unknown":
             m.task_name = "no.such.task"
         data = broker.formatter.dumps(m).message
@@ -397,6 +416,13 @@ def run_worker(sc: Dict[str, Any], register: Optional[Callable[..., None]] = Non
     loop = VirtualTimeLoop()
     loop.max_iterations = int(sc.get("max_iterations", 200_000))
     asyncio.set_event_loop(loop)
+    import taskiq.receiver.receiver as _rr
+
+    WALL["offset"] = 0.0
+    _orig_time = getattr(_rr, "time", None)
+    if _orig_time is not None:
+        # execution time is measured with the wall clock: make it follow the virtual clock, plus generated steps
+        _rr.time = lambda: 1.7e9 + loop.time() + WALL["offset"]  # type: ignore[attr-defined]
     tr = Trace(loop)
     b = ScriptedBroker(tr)
     b.ends = bool(sc.get("ends", False))
@@ -480,6 +506,8 @@ def run_worker(sc: Dict[str, Any], register: Optional[Callable[..., None]] = Non
             loop.close()
             asyncio.set_event_loop(None)
     AsyncBroker.global_task_registry.pop("shtask", None)
+    if _orig_time is not None:
+        _rr.time = _orig_time  # type: ignore[attr-defined]
     res.setdefault("trace", list(tr.ev))
     res["backend"] = rb
     res["broker"] = b
@@ -493,7 +521,7 @@ def timeout_verdict(sp: Dict[str, Any]) -> str:
     """'none' | 'ok' (finishes before the timeout) | 'tie' (finishes exactly at it: either outcome) | 'timeout'.
     The asynchronous clean-up is part of the coroutine the worker waits for."""
     to = sp.get("timeout")
-    if to is None or sp["kind"] not in ("async", "shared", "late", "dyn"):
+    if to is None or sp["kind"] not in ("async", "shared", "late", "dyn", "plaincls"):
         return "none"
     total = NEVER if sp.get("out") == "never" else sp["dur"] + sp.get("cleanup", 0)
     if abs(total - float(to)) < 1e-9:
@@ -512,7 +540,7 @@ def per_message(trace: List[List[Any]]) -> Dict[Any, List[Any]]:
 
 
 def is_good(sp: Dict[str, Any]) -> bool:
-    return sp["kind"] in ("async", "sync", "shared", "late", "dyn")
+    return sp["kind"] in ("async", "sync", "shared", "late", "dyn", "plaincls")
 
 
 def brief_trace(trace: List[List[Any]], limit: int = 60) -> List[Any]:
